@@ -292,3 +292,90 @@ Proof.
 Qed.
 End AxisOrder.
 End Link.
+
+(* ============================================================================================== *)
+(* 3. feasibility of the LP on an axis that lists the coloured alternatives from left to right      *)
+(* ============================================================================================== *)
+Lemma scale_exists (l : list Q) : (forall s, In s l -> 0 < s) -> exists k, 0 < k /\ forall s, In s l -> 2 <= k * s.
+Proof.
+  induction l as [|s t IH]; intros Hpos.
+  - exists 1. split; [reflexivity|intros ? []].
+  - destruct IH as (k0 & Hk0 & Ht); [intros u Hu; apply Hpos; now right|].
+    assert (Hs : 0 < s) by (apply Hpos; now left).
+    exists (k0 + 2 / s). assert (Hd : 0 < 2 / s) by (apply Qlt_shift_div_l; lra).
+    split; [lra|]. intros u [<-|Hu].
+    + assert (E : (k0 + 2 / s) * s == k0 * s + 2) by (field; lra). rewrite E.
+      assert (0 <= k0 * s) by (apply Qmult_le_0_compat; lra). lra.
+    + specialize (Ht u Hu). assert (Hu0 : 0 < u) by (apply Hpos; now right).
+      assert (E : (k0 + 2 / s) * u == k0 * u + (2 / s) * u) by ring. rewrite E.
+      assert (0 <= (2 / s) * u) by (apply Qmult_le_0_compat; lra). lra.
+Qed.
+
+Lemma posf_scaled (x : N -> Q) k axis c : In c axis -> posf (map (fun a => (a, k * x a)) axis) c = k * x c.
+Proof.
+  unfold posf. induction axis as [|y t IH]; intros Hc; [destruct Hc|]. cbn [map apos_lookup].
+  destruct (N.eqb y c) eqn:E; [apply N.eqb_eq in E; now subst|]. apply N.eqb_neq in E.
+  destruct Hc as [->|Hc]; [congruence|]. now apply IH.
+Qed.
+
+Lemma Forall2_map_l {A B C} (P : C -> B -> Prop) (f : A -> C) l1 l2 :
+  Forall2 P (map f l1) l2 <-> Forall2 (fun a b => P (f a) b) l1 l2.
+Proof.
+  revert l2. induction l1 as [|a t IH]; intros l2; cbn [map].
+  - split; intros H; inversion H; constructor.
+  - split; intros H; inversion H; subst; constructor; try assumption; now apply IH.
+Qed.
+
+Lemma SS_weaken_nodup {T} (R1 R2 : T -> T -> Prop) l : NoDup l ->
+  (forall a b, In a l -> In b l -> a <> b -> R1 a b -> R2 a b) -> StronglySorted R1 l -> StronglySorted R2 l.
+Proof.
+  intros Hnd Himp H. induction H as [|x t Ht IH Hall]; [constructor|]. inversion Hnd as [|? ? Hnin Hnd']; subst. constructor.
+  - apply IH; [assumption|]. intros a b Ha Hb. apply Himp; now right.
+  - rewrite Forall_forall in *. intros y Hy. apply Himp; [now left|now right|intros ->; contradiction|now apply Hall].
+Qed.
+
+Theorem lp_feasible (x : N -> Q) (vpos : list Q) (orders : list (list N)) (axis : list N) (col : N -> bool) :
+  StronglySorted (fun a b => x a < x b) axis ->
+  (forall c, In c axis -> col c = true) ->
+  Forall (fun r => forall c, In c axis -> In c r) orders ->
+  Forall2 (vote_realised x) vpos orders ->
+  exists vs xs, lp_sat (map (filter col) orders) axis vs xs.
+Proof.
+  intros Hax Hcol Hin Hre.
+  set (vslack := fun (pr : Q * list N) (ab : N * N) =>
+                   if before (snd pr) (fst ab) (snd ab) then x (fst ab) + x (snd ab) - 2 * fst pr
+                   else 2 * fst pr - (x (fst ab) + x (snd ab))).
+  set (slacks := map (fun ab => x (snd ab) - x (fst ab)) (ordered_pairs axis)
+                 ++ flat_map (fun pr => map (vslack pr) (ordered_pairs axis)) (combine vpos orders)).
+  assert (Hax' : forall ab, In ab (ordered_pairs axis) -> x (fst ab) < x (snd ab)).
+  { apply Forall_forall. exact (proj1 (SS_pairs (fun a b => x a < x b) axis) Hax). }
+  assert (Hpos : forall s, In s slacks -> 0 < s).
+  { intros s Hs. unfold slacks in Hs. apply in_app_or in Hs. destruct Hs as [Hs|Hs].
+    - apply in_map_iff in Hs. destruct Hs as (ab & <- & Hab). specialize (Hax' ab Hab). lra.
+    - apply in_flat_map in Hs. destruct Hs as ([p r] & Hpr & Hs). apply in_map_iff in Hs. destruct Hs as ([a b] & <- & Hab).
+      pose proof (Hax' _ Hab) as Hlt. cbn [fst snd] in Hlt.
+      assert (Hr : In r orders) by (eapply in_combine_r; eassumption).
+      pose proof (Forall2_combine _ _ _ _ _ Hre Hpr) as Hv.
+      destruct (ordered_pairs_In _ _ _ Hab) as (Ha & Hb). rewrite Forall_forall in Hin.
+      pose proof (Hin r Hr a Ha) as Har. pose proof (Hin r Hr b Hb) as Hbr.
+      unfold vslack. cbn [fst snd]. destruct (before r a b) eqn:E.
+      + apply (before_closer x p r a b Hv Har Hbr) in E. unfold closer in E. apply (closer_left_iff p _ _ Hlt) in E. lra.
+      + assert (Hne : a <> b) by (intros ->; lra).
+        pose proof (before_total r a b Har Hbr Hne E) as E'.
+        apply (before_closer x p r b a Hv Hbr Har) in E'. unfold closer in E'. apply (closer_right_iff p _ _ Hlt) in E'. lra. }
+  destruct (scale_exists slacks Hpos) as (k & Hk & Hs).
+  exists (map (Qmult k) vpos), (map (fun a => (a, k * x a)) axis). split.
+  - apply Forall_forall. intros [a b] Hab. cbn [fst snd]. destruct (ordered_pairs_In _ _ _ Hab) as (Ha & Hb).
+    rewrite (posf_scaled x k axis a Ha), (posf_scaled x k axis b Hb).
+    assert (H2 : 2 <= k * (x b - x a)).
+    { apply Hs. unfold slacks. apply in_or_app. left. apply in_map_iff. exists (a, b). split; [reflexivity|assumption]. }
+    lra.
+  - apply Forall2_map_l, Forall2_map_r. apply Forall2_of_combine; [eapply Forall2_length; eassumption|].
+    intros p r Hpr. apply Forall_forall. intros [a b] Hab. cbn [fst snd]. destruct (ordered_pairs_In _ _ _ Hab) as (Ha & Hb).
+    rewrite (posf_scaled x k axis a Ha), (posf_scaled x k axis b Hb).
+    rewrite (before_filter col r a b (Hcol a Ha) (Hcol b Hb)).
+    assert (H2 : 2 <= k * vslack (p, r) (a, b)).
+    { apply Hs. unfold slacks. apply in_or_app. right. apply in_flat_map. exists (p, r). split; [assumption|].
+      apply in_map_iff. exists (a, b). split; [reflexivity|assumption]. }
+    unfold vslack in H2. cbn [fst snd] in H2. destruct (before r a b); lra.
+Qed.
